@@ -1026,6 +1026,18 @@ void addUniquenessFaults(std::vector<Fault> &cat)
                         continue;
                     }
                     std::string rel = kv.second == 0 ? "same-variable" : (kv.second == 1 ? "direct-equivalent" : "transitive-equivalent");
+                    if (kv.second != 0) {
+                        // how many variables of this connected set carry resets once the new reset is added
+                        std::set<VarKey> carriers = {kv.first};
+                        for (const auto &member : dist) {
+                            for (const auto &rr : m.comps[static_cast<size_t>(member.first.first)].resets) {
+                                if (rr.var == member.first.second) {
+                                    carriers.insert(member.first);
+                                }
+                            }
+                        }
+                        rel += carriers.size() <= 2 ? "/set-with-2-reset-variables" : "/set-with-3+-reset-variables";
+                    }
                     bool first = rng.chance(0.5);
                     int order = r.order;
                     out.push_back(irLoc(rel + "/" + compClass(m, tc) + (first ? "/first" : "/last"),
@@ -2929,8 +2941,8 @@ static Plan makePlan(const std::string &tier)
     p.nPrefix = th ? 150 : 12;
     p.nResolved = th ? 150 : 12;
     p.nCycle = th ? 4 : 2;
-    int reps = th ? 100 : 3;
-    int mathReps = th ? 20 : 3;
+    int reps = th ? 60 : 3;
+    int mathReps = th ? 12 : 3;
     const auto &cat = catalogue();
     for (int r = 0; r < reps; ++r) {
         for (size_t f = 0; f < cat.size(); ++f) {
